@@ -504,3 +504,30 @@ Example C10_ex_from_dicts_refuses :
                     (sample_shared Z Z (ex_in 5 [])) = Err 93 /\
   in_from_dicts Z Z [(key "W", PArr 1); (key "V2", PArr 2); (key "precision", PNum 3)] [] = Err 94.
 Proof. vm_compute. repeat split; reflexivity. Qed.
+
+(* ---- the remaining small functions of core.py (Generated/SrcCoreSmall.v, Generated/SrcInits.v) ---- *)
+From Batchie Require Generated.SrcCoreSmall Generated.SrcInits Proofs.C10Source_Iter Proofs.C10Source_EvaluateAll
+  Proofs.C10Source_Init_BayesianModel Proofs.C10Source_Init_Metric.
+
+(* ThetaHolder.__iter__ (a generator: the list it yields): the stored samples, in their order *)
+Theorem C10_model_is_source_iter : forall (P S : Type) (self : pyobj P S),
+  SrcCoreSmall.src_holder_iter P S self = Ok (attr_thetas self).
+Proof. exact C10Source_Iter.src_holder_iter_is_thetas. Qed.
+Print Assumptions C10_model_is_source_iter.
+
+(* Metric.evaluate_all: iterating the holder runs the translated __iter__; the abstract method evaluate is ANY function that may
+   raise: the values of the stored samples in their order, the first exception aborting (np.array of the list: the same values) *)
+Theorem C10_model_is_source_evaluate_all : forall (P S V : Type) (ev : theta P S -> result V) (h : pyobj P S),
+  SrcCoreSmall.src_metric_evaluate_all P S V ev h = res_map_all ev (attr_thetas h).
+Proof. exact C10Source_EvaluateAll.src_metric_evaluate_all_is_map. Qed.
+Print Assumptions C10_model_is_source_evaluate_all.
+
+(* BayesianModel.__init__ / Metric.__init__ store their argument (the stored object is opaque) *)
+Theorem C10_model_is_source_bayesian_model_init : forall (Sp : Type) (experiment_space : Sp),
+  SrcInits.src_bayesian_model_init Sp experiment_space = Ok experiment_space.
+Proof. exact C10Source_Init_BayesianModel.src_bayesian_model_init_stores. Qed.
+Print Assumptions C10_model_is_source_bayesian_model_init.
+
+Theorem C10_model_is_source_metric_init : forall (Mo : Type) (model : Mo), SrcInits.src_metric_init Mo model = Ok model.
+Proof. exact C10Source_Init_Metric.src_metric_init_stores. Qed.
+Print Assumptions C10_model_is_source_metric_init.
